@@ -120,9 +120,17 @@ static bool csCall(const std::string &name, Toks &t, Model &m, CSState &C, Vecto
     VectorNd Q = VectorNd::Zero(m.q_size);
     bool ok = InverseKinematics(m, q, ids, pts, tgts, Q, step_tol, lam, maxit);
     o.str(ok ? "1" : "0"); o.vec(Q);
-  } else if (name == "IK2") {
+  } else if (name == "IK2" || name == "IK2c") {
     // lambda max_steps step_tol constraint_tol ncons (kind body point target R weight)*
     InverseKinematicsConstraintSet ik;
+    if (name == "IK2c") {
+      // a constraint set that was used for another problem and cleared: nothing of the earlier
+      // constraints (targets, weights) may enter the new problem
+      ik.AddPointConstraint(1, Vector3d(0.3, -0.2, 0.1), Vector3d(5., 4., -3.), 0.1f);
+      ik.AddOrientationConstraint(1, Matrix3d::Identity(), 7.f);
+      ik.AddPointConstraintZ(1, Vector3d(0., 0., 0.), Vector3d(0., 0., 9.), 0.25f);
+      ik.ClearConstraints();
+    }
     ik.lambda = t.rat(); ik.max_steps = t.nat(); ik.step_tol = t.rat(); ik.constraint_tol = t.rat();
     unsigned ncons = t.nat();
     for (unsigned i = 0; i < ncons; i++) {
